@@ -327,3 +327,92 @@ Proof.
   subst f'. unfold get_dense. rewrite H1', H1. unfold col_rows. now rewrite Hcols.
 Qed.
 End Subset.
+
+(* ---------- the boolean checker of get_features / get_template_features is sound ---------- *)
+Section DenseChecker.
+Context {A : Type}.
+Variables (zero : A) (aeqb : A -> A -> bool).
+Hypothesis aeqb_eq : forall a b, aeqb a b = true -> a = b.
+
+Lemma stored_row_f_complete (st : @store A) sp drow :
+  match st_rows st with Some r => NoDup r | None => True end ->
+  stored_row st sp drow -> stored_row_f st sp = Some drow.
+Proof.
+  unfold stored_row, stored_row_f. destruct (st_rows st) as [r|]; intros Hnd H.
+  - destruct H as (q & Hq & Hd). now rewrite (nth_find_pos r sp q Hnd Hq).
+  - destruct H as (H0 & Hd). replace (sp <? 0) with false by lia. exact Hd.
+Qed.
+
+Lemma col_row_f_complete (st : @store A) n_loc stpl sp crow :
+  col_row st n_loc stpl sp crow -> col_row_f st n_loc stpl sp = Some crow.
+Proof.
+  unfold col_row, col_row_f. destruct (st_cols st) as [ct|]; intros H.
+  - destruct H as (t & H0 & Ht & H1 & Hc). replace (sp <? 0) with false by lia. rewrite Ht.
+    replace (t <? 0) with false by lia. exact Hc.
+  - now subst.
+Qed.
+
+Theorem dense_spec_b_sound (st : @store A) n_loc stpl ids chans out :
+  match st_rows st with Some r => NoDup r | None => True end ->
+  rows_len n_loc (st_data st) ->
+  match st_cols st with Some ct => Forall (fun r => length r = n_loc) ct | None => True end ->
+  dense_spec_b zero aeqb st n_loc stpl ids chans out = true -> Dense_Spec zero st n_loc stpl ids chans out.
+Proof.
+  intros Hnd Hdl Hcl. revert out; induction ids as [|sp sr IH]; intros [|o or] H; cbn [dense_spec_b] in H; try discriminate.
+  - split; [reflexivity|]. intros [|p]; discriminate.
+  - apply andb_true_iff in H as [H H3]. apply andb_true_iff in H as [H1 H2]. apply Nat.eqb_eq in H1.
+    destruct (IH or H3) as (Hlen & Hrows). split; [cbn [length]; lia|].
+    intros [|p] sp' Hp; cbn [nth_error] in *; [|now apply Hrows].
+    injection Hp as <-. exists o. split; [reflexivity|]. split; [exact H1|].
+    intros drow crow Hst Hcr j ch Hj.
+    rewrite (stored_row_f_complete st sp drow Hnd Hst), (col_row_f_complete st n_loc stpl sp crow Hcr) in H2.
+    assert (Hl : length drow = length crow).
+    { assert (length drow = n_loc).
+      { unfold stored_row in Hst. unfold rows_len in Hdl. rewrite Forall_forall in Hdl. apply Hdl.
+        destruct (st_rows st); [destruct Hst as (q & _ & Hd)|destruct Hst as (_ & Hd)]; eapply nth_error_In; eauto. }
+      assert (length crow = n_loc).
+      { unfold col_row in Hcr. destruct (st_cols st) as [ct|].
+        - destruct Hcr as (t & _ & _ & _ & Hc). rewrite Forall_forall in Hcl. apply Hcl. eapply nth_error_In; eauto.
+        - subst. apply arange_length. }
+      lia. }
+    destruct (row_ok_sound zero aeqb aeqb_eq crow drow chans o Hl H2) as (_ & Hcells). now apply Hcells.
+Qed.
+End DenseChecker.
+
+(* ---------- channel order at the level of get_features ---------- *)
+Section DensePerm.
+Context {A : Type}.
+Variables (zero nanc : A).
+
+Lemma from_sparse_ok_shape (data : list (list A)) cols chans out :
+  from_sparse zero data cols chans = Ok out -> shape_ok data cols = true.
+Proof.
+  unfold from_sparse. destruct (nodupb chans); cbn [negb]; [|discriminate].
+  destruct (shape_ok data cols); cbn [negb]; [reflexivity|discriminate].
+Qed.
+
+Theorem get_dense_perm (st : @store A) n_loc stpl ids chans chans' :
+  Wf st n_loc stpl ids -> NoDup chans -> (forall c, In c chans -> 0 <= c) ->
+  NoDup chans' -> (forall c, In c chans' -> 0 <= c) ->
+  exists out out', get_dense zero nanc st n_loc stpl ids chans = Ok out /\
+                   get_dense zero nanc st n_loc stpl ids chans' = Ok out' /\ length out = length out' /\
+    forall p orow orow' j j' ch, nth_error out p = Some orow -> nth_error out' p = Some orow' ->
+      nth_error chans j = Some ch -> nth_error chans' j' = Some ch -> nth_error orow j = nth_error orow' j'.
+Proof.
+  intros W H1 H2 H1' H2'. destruct (get_dense_spec zero nanc st n_loc stpl ids chans W H1 H2) as (out & Ho & _).
+  unfold get_dense in *. destruct (fill_rows nanc st n_loc ids) as [feats|]; [|discriminate].
+  destruct (col_rows st n_loc stpl ids) as [cols|]; [|discriminate].
+  pose proof (from_sparse_ok_shape feats cols chans out Ho) as Hsh.
+  rewrite (from_sparse_closed zero feats cols chans H1 H2 Hsh), (from_sparse_closed zero feats cols chans' H1' H2' Hsh).
+  exists (dense zero feats cols chans), (dense zero feats cols chans'). split; [reflexivity|]. split; [reflexivity|].
+  pose proof Hsh as Hs2. apply shape_ok_spec in Hs2 as (Hlc & _). split; [now rewrite !dense_length|].
+  intros p orow orow' j j' ch Hp Hp' Hj Hj'.
+  assert (Hlt : (p < length feats)%nat) by (rewrite <- (dense_length zero feats cols chans Hlc); apply nth_error_Some; congruence).
+  destruct (nth_error feats p) as [drow|] eqn:Ed; [|apply nth_error_None in Ed; lia].
+  destruct (nth_error cols p) as [crow|] eqn:Ec; [|apply nth_error_None in Ec; lia].
+  rewrite (dense_nth zero feats cols chans p drow crow Ed Ec) in Hp.
+  rewrite (dense_nth zero feats cols chans' p drow crow Ed Ec) in Hp'.
+  injection Hp as <-. injection Hp' as <-.
+  now rewrite (dense_row_nth zero crow drow chans j ch Hj), (dense_row_nth zero crow drow chans' j' ch Hj').
+Qed.
+End DensePerm.
